@@ -798,3 +798,94 @@ Proof. intros. apply inv_life'_life. apply life'_init. Qed.
 
 Theorem life_inv_reachable : forall nt T s, wf_net nt = true -> reachable nt T s -> inv_shape nt s /\ inv_life nt s.
 Proof. intros nt T s Hwf Hr. destruct (life'_reachable nt T s Hwf Hr). split; auto. apply inv_life'_life; auto. Qed.
+
+(* ------------------------------------------------------------------ C03: the model never panics *)
+Lemma filter_pos : forall A (f : A -> bool) l i a, nth_error l i = Some a -> f a = true -> 1 <= length (filter f l).
+Proof.
+  intros. assert (In a (filter f l)) by (apply filter_In; split; auto; eapply nth_error_In; eauto).
+  destruct (filter f l); [contradiction|cbn; lia].
+Qed.
+
+(* C03: no interleaving makes the framework panic: no send on a closed channel, no double close *)
+Theorem step_no_panic : forall nt T s a, wf_net nt = true -> inv_shape nt s -> inv_life nt s -> step nt T s a <> Panic.
+Proof.
+  intros nt T s a Hwf [Hlen Hws] Hl.
+  destruct Hl as (L1 & L2 & L3 & L4 & L5 & L6 & L7 & L8 & L9a & L9b & L9c).
+  destruct a; cbn [step].
+  - destruct (src s); try discriminate. destruct (mn s); discriminate.
+  - destruct (src s); discriminate.
+  - destruct (src s); discriminate.
+  - destruct (src s); discriminate.
+  - (* MainSend: the root is open while main is in its loop *)
+    destruct (mn s) as [|it [|r rs]| | |] eqn:Hm; try discriminate.
+    destruct (try_send nt s r it) eqn:Hts; try discriminate.
+    exfalso. apply try_send_panic in Hts.
+    destruct (L9c _ _ eq_refl) as [_ Hrs]. specialize (L7 r (Hrs r (or_introl eq_refl)) Hts).
+    unfold main_past_loop in L7. rewrite Hm in L7. discriminate.
+  - destruct (mn s); try discriminate. destruct (src s); discriminate.
+  - (* MainCloseRoots: the roots are distinct and still open *)
+    destruct (mn s) eqn:Hm; try discriminate.
+    destruct (close_all_total (roots nt) s (wf_roots_NoDup nt Hwf)) as [s1 Hs1].
+    { intros r Hr. destruct (closed (node s r)) eqn:Hc; auto.
+      specialize (L7 r Hr Hc). unfold main_past_loop in L7. rewrite Hm in L7. discriminate. }
+    rewrite Hs1. discriminate.
+  - destruct (mn s); try discriminate. destruct (all_exited s); discriminate.
+  - destruct (mn s); try discriminate. destruct (_ <=? _); discriminate.
+  - discriminate.
+  - destruct (nth_error (ws (node s n)) w) as [[]|]; try discriminate. destruct (q (node s n)); discriminate.
+  - destruct (nth_error (ws (node s n)) w) as [[]|]; try discriminate.
+    destruct (outcome_ok _ _ _); try discriminate. destruct o; discriminate.
+  - (* SendW: a child / handler is closed only after the sender's once completed, when no worker sends *)
+    destruct (nth_error (ws (node s n)) w) as [[| |[|[c it] rest]| | | | |]|] eqn:Hg; try discriminate.
+    destruct (try_send nt s c it) eqn:Hts; try discriminate.
+    exfalso. apply try_send_panic in Hts.
+    pose proof (node_ws_some_lt _ _ _ _ Hg) as Hn. assert (Hn' : n < length nt) by lia.
+    destruct (L9a n w _ Hn' Hg) as [_ Hp]. specialize (Hp (c, it) (or_introl eq_refl)). cbn [fst] in Hp.
+    specialize (L6 n c Hn' Hp Hts).
+    assert (Ho : once (node s n) <> ONone) by congruence.
+    specialize (L1 n Hn' Ho). pose proof (forallb_nth_error _ _ _ _ _ L1 Hg). discriminate.
+  - destruct (nth_error (ws (node s n)) w) as [[]|]; try discriminate.
+    destruct (q (node s n)); try discriminate. destruct (closed (node s n)); discriminate.
+  - destruct (nth_error (ws (node s n)) w) as [[]|]; try discriminate. destruct (forallb _ _); discriminate.
+  - destruct (nth_error (ws (node s n)) w) as [[]|]; try discriminate. destruct (once (node s n)); discriminate.
+  - destruct (nth_error (ws (node s n)) w) as [[]|]; try discriminate.
+    destruct (inflight (node s n)); try discriminate. destruct (existsb _ _); discriminate.
+  - (* CloseKids: the targets are distinct, and closed only by this very action *)
+    destruct (nth_error (ws (node s n)) w) as [[]|] eqn:Hg; try discriminate.
+    pose proof (node_ws_some_lt _ _ _ _ Hg) as Hn. assert (Hn' : n < length nt) by lia.
+    destruct (close_all_total (targets (info nt n)) s (wf_targets_NoDup nt Hwf n Hn')) as [s1 Hs1].
+    { intros c Hc. destruct (closed (node s c)) eqn:Hcl; auto.
+      specialize (L6 n c Hn' Hc Hcl). specialize (L3 n Hn'). rewrite L6 in L3.
+      unfold cnt_workers in L3. pose proof (filter_pos _ is_running_once _ _ _ Hg eq_refl). lia. }
+    rewrite Hs1. discriminate.
+  - destruct (nth_error (ws (node s n)) w) as [[]|]; try discriminate. destruct (once (node s n)); discriminate.
+  - destruct (remove_one it (inflight (node s n))); try discriminate. destruct (outcome_ok _ _ _); discriminate.
+  - (* SendC: a callback thread exists only until the node's Shutdown returns, before anything is closed *)
+    destruct (nth_error (cbs s) i) as [[n [|[c it] rest]]|] eqn:Hg; try discriminate.
+    destruct (try_send nt s c it) eqn:Hts; try discriminate.
+    exfalso. apply try_send_panic in Hts.
+    pose proof (nth_error_In _ _ Hg) as Hin.
+    destruct (L8 _ Hin) as [Hn' _]. cbn [fst] in Hn'.
+    pose proof (L9b _ (c, it) Hin (or_introl eq_refl)) as Hp. cbn [fst] in Hp.
+    specialize (L6 n c Hn' Hp Hts).
+    destruct (L5 n Hn' (or_introl L6)) as [_ Hex].
+    pose proof (existsb_false_In _ _ _ _ Hex Hin) as Hown. unfold owns in Hown. cbn [fst] in Hown.
+    rewrite Nat.eqb_refl in Hown. discriminate.
+Qed.
+
+Theorem run_no_panic : forall nt T sch, wf_net nt = true -> run nt T (init nt) sch <> Panic.
+Proof.
+  intros nt T sch Hwf.
+  assert (G : forall sch s, inv_shape nt s -> inv_life' nt s -> run nt T s sch <> Panic).
+  { induction sch0 as [|a sch0 IH]; intros s Hs I; cbn [run]; [discriminate|].
+    destruct (step nt T s a) as [s1| |] eqn:Hst; try discriminate.
+    - apply IH. eapply shape_step; eauto. eapply life'_step; eauto.
+    - exfalso. eapply step_no_panic; eauto. apply inv_life'_life; auto. }
+  apply G. apply shape_init. apply life'_init.
+Qed.
+
+(* The stated invariant is inductive only together with the auxiliary clauses: this is the step theorem
+   (for [inv_life'], which implies [inv_life] by [inv_life'_life]). *)
+Theorem life_inv_step : forall nt T s a s', wf_net nt = true -> inv_shape nt s -> inv_life' nt s ->
+  step nt T s a = Ok s' -> inv_life' nt s'.
+Proof. exact life'_step. Qed.
